@@ -3,6 +3,8 @@
 from __future__ import annotations
 
 from contracts import common, trusted
+import contracts.C10_dispatch  # noqa: F401  (Step.set_state stand-in)
+import contracts.C03_inputs  # noqa: F401  (Scheduler._derive_job contract)
 from contracts.trusted import DbStub, Reporter
 from vc import engine, extract, sqlfront, sym
 from vc import terms as tm
@@ -181,11 +183,6 @@ class handle_done_tasks_assumed:
     modifies = ["self.done_tasks"]
 
 
-@contract("stepup/core/builder.py::Builder._report_counts", props=[], verify=False, note="reporting only")
-class report_counts_assumed2:
-    modifies = []
-
-
 def _job_loop_finish(c, outcome, args, old):
     """Phase end: job_loop returns only when, in the same iteration and with no await afterwards, the scheduler had
     no job to offer and both task tables are empty."""
@@ -359,7 +356,8 @@ def _next_row_fact(row, args):
 def _scheduler(args):
     wf = ty.ObjOf(common.Workflow, dict(need_threshold=ty.EnumOf(common.Need)), name="Workflow").fresh("workflow")
     db = DbStub("db", [("SELECT node.i, node.label, step._has_hash", ty.TupleOf(ty.Int, ty.Str, ty.Int), _next_row_fact)])
-    s = ty.ObjOf(Scheduler, dict(draining=ty.Bool, job_counter=ty.Int), name="Scheduler").fresh("self")
+    s = ty.ObjOf(Scheduler, dict(draining=ty.Bool, job_counter=ty.Int, jobs=ty.MapOf(ty.Int, ty.Ignored())),
+                 name="Scheduler").fresh("self")
     s._fields["workflow"] = wf
     s._fields["db"] = db
     wf._fields["db"] = db
@@ -417,28 +415,10 @@ class get_next_step:
     modifies = []
 
 
-@contract("stepup/core/scheduler.py::Scheduler._derive_job", props=[], verify=False,
-          note="builds the job object for the selected step (verified under C03)")
-class derive_job_assumed:
-    may_raise = {common.ConsistencyError: None}
-    result = lambda: ty.Make(lambda n: _JobStub())
-    modifies = ["self.job_counter"]
-
-
 for _n in ("_update_meta_safe", "_update_meta_after", "_update_meta_ready"):
     contract(f"stepup/core/scheduler.py::Scheduler.{_n}", props=[], verify=False,
              note="recomputes cached scheduling columns (C10)")(type(_n, (), dict(
                  modifies=[], ensures=staticmethod(lambda self, _n=_n: (cur().event("meta", which=_n), True)[1]))))
-
-
-@contract("stepup/core/step.py::Step.set_state", props=[], verify=False, note="writes the state column of this step")
-class step_set_state_assumed:
-    modifies = []
-
-    @staticmethod
-    def ensures(self, state):
-        cur().event("set_state", node=self, state=state)
-        return True
 
 
 def _pop_finish(c, outcome, args, old):
@@ -473,7 +453,7 @@ class pop_next_job:
     args = dict(self=_scheduler)
     may_raise = {common.ConsistencyError: None}
     finish = _pop_finish
-    modifies = ["self.job_counter"]
+    modifies = ["self.job_counter", "self.jobs"]
 
 
 @structural("C12/scan/running_state_writers", props=["C12", "C05"],
